@@ -91,10 +91,14 @@ CHECKS = {
         'all wallet views, requests, oracle values and every network of the regenerated table: select_sufficient, create_conserves, create_fee_nonneg, '
         'create_no_negative_output, create_recipients_exact, create_inputs_ok, insufficient_fails, send/sweep_conserves, bumpfee_conserves, '
         'bumpfee_no_negative_output, bumpfee_pays_extra. Tie: real wallets (sqlite, offline provider) are driven with random UTXO sets and requests and '
-        'compared with the extracted model; an independent oracle re-sums inputs/outputs/fee from the returned transaction and its raw bytes.',
+        'compared with the extracted model; an independent oracle re-sums inputs/outputs/fee from the returned transaction and its raw bytes.'
+        ' Wallet HISTORIES (Model/TxCreateHistory.v: broadcast / utxos_update with arbitrary provider listings / utxo_add / reopen / bumpfee, send as two-phase creation with one '
+        'argument record, explicit-input shapes): history_inputs_unspent_distinct_confirmed, history_invariant, utxos_update_keeps_consumed_spent, send_recreation_keeps_arguments, '
+        'send_result_respects_arguments, explicit_inputs_use_wallet_values (guarded). Tie: hist requests on real wallets with decoy UTXO sets (under-confirmed / other key / other '
+        'account outputs sufficient alone), caller values disagreeing with the wallet records; the oracle keeps its own books and parses the raw transactions itself.',
    design_ref='DESIGN.md section 6 C07, section 9',
-   note='Closed under the global context. SQL tie order, signing, address encoding and int64 wrap are not modelled (correspondence only). Two known findings '
-        '(explicit_inputs_unchecked, fee_rate_checked_on_estimate) with refutation witnesses; three defects repaired by fix: commits.',
+   note='Closed under the global context. SQL tie order, signing, address encoding and int64 wrap are not modelled (correspondence only). Four known findings '
+        '(explicit_inputs_unchecked, fee_rate_checked_on_estimate, explicit_input_not_in_wallet, bumpfee_replacement_unverified) with refutation witnesses; three defects repaired by fix: commits.',
    technique='Coq proof over a pure functional model of transaction creation + differential correspondence against real wallets'),
  'C06': dict(
    text='Byte-level Gallina model of the transaction and block codecs: spec_ser/spec_parse from BIP144 + Core, lib_raw/lib_parse mirroring the library. '
@@ -305,7 +309,11 @@ CHECKS = {
         'Signature.parse_bytes / der_encode_sig; plus whole sessions run in one adapter process / on one object: signseq (key/digest pairs colliding under realistic cache '
         'keys: multiples of 2^61-1, 2^31-1, 2^32, 2^64, d / n-d, swapped, repeats, interleavings, reused Key objects; nonce distinctness checked across pairs), vseq (objects '
         'from sign, create, parse_* with and without public_key=; own / negated / equal-y / unrelated keys in every accepted form; omitted arguments; keys.verify and '
-        'Signature.verify), signrand (use_rfc6979=False judged with the reported nonce).',
+        'Signature.verify), signrand (use_rfc6979=False judged with the reported nonce).'
+        ' Argument forms: every digest / key / signature argument is PBytes or PText in the model (arg_meaning: bytes mean their bytes, text means its strict base-16 decoding): '
+        'verify_argument_form_irrelevant, verify_bytes_and_text_agree, verify_forms_exact, parse_entry_points_read_meaning, sign_argument_form_irrelevant, '
+        'sign_form_reaches_nonce_only, session variants. Tie: hex-LOOKING bytes (digests, compact/DER signatures, key coordinates made only of ASCII hex characters), mixed-case and '
+        'white-space text through every entry point and in sessions; two known findings for digest TEXT that is not clean hex (spaced_digest_text, nonhex_digest_text).',
    design_ref='DESIGN.md section 6 C13, section 9',
    note='Closed under the global context. The group law of the executable curve and primality of n are premises of sign_verifies (no EC library installed); nonce '
         'uniqueness across (key, message) pairs is the pseudo-randomness of HMAC and is not claimed as a theorem - the harness checks it on the enumerated colliding pairs '
